@@ -98,3 +98,18 @@ func debugDump(rec *BuildRec, p string) {
 		}
 	}
 }
+
+// dumpProject writes the generated project and its options to VERIF_DUMP_DIR (used to
+// reproduce a finding against the un-instrumented tree with a plain Go program).
+func dumpProject(p *Project, o *OptModel) {
+	dir := os.Getenv("VERIF_DUMP_DIR")
+	if dir == "" {
+		return
+	}
+	for k, v := range p.Render() {
+		f := dir + "/" + k
+		os.MkdirAll(f[:strings.LastIndex(f, "/")], 0755)
+		os.WriteFile(f, []byte(v), 0644)
+	}
+	os.WriteFile(dir+"/OPTIONS.txt", []byte(fmt.Sprintf("%+v\nentries=%v\n", *o, p.EntryPaths())), 0644)
+}
